@@ -53,3 +53,66 @@ CONFIG_DEFAULTS = {
 
 # Units in which small magnitudes are safe for angles (angles must stay within one turn)
 LINEAR_ANGLE_UNITS = ["Radian", "Degree", "MOA", "Mil", "MRad", "Thousandth"]
+
+# ---------------------------------------------------------------------------------------------------------------
+# Pinned copy of the documented alias table (py_ballisticcalc.unit.UnitAliases at the pinned commit), the oracle for
+# C18's name clause.  It is deliberately NOT read from the library.  The one malformed entry of the original table,
+# the single string 'in/100yard, inper100yd', is pinned as the two aliases it evidently spells.
+UNIT_ALIASES = {
+    "Radian": ["radian", "rad"],
+    "Degree": ["degree", "deg"],
+    "MOA": ["moa"],
+    "Mil": ["mil"],
+    "MRad": ["mrad"],
+    "Thousandth": ["thousandth", "ths"],
+    "InchesPer100Yd": ["inch/100yd", "in/100yd", "in/100yard", "inper100yd"],
+    "CmPer100m": ["centimeter/100m", "cm/100m", "cm/100meter", "centimeter/100meter", "cmper100m"],
+    "OClock": ["hour", "h"],
+    "Inch": ["inch", "in"],
+    "Foot": ["foot", "feet", "ft"],
+    "Yard": ["yard", "yd"],
+    "Mile": ["mile", "mi", "mi."],
+    "NauticalMile": ["nauticalmile", "nm", "nmi"],
+    "Millimeter": ["millimeter", "mm"],
+    "Centimeter": ["centimeter", "cm"],
+    "Meter": ["meter", "m"],
+    "Kilometer": ["kilometer", "km"],
+    "Line": ["line", "ln", "liniа"],
+    "FootPound": ["footpound", "foot-pound", "ft⋅lbf", "ft⋅lb", "foot*pound", "ft*lbf", "ft*lb"],
+    "Joule": ["joule", "J"],
+    "MmHg": ["mmHg"],
+    "InHg": ["inHg", "″Hg"],
+    "Bar": ["bar"],
+    "hPa": ["hectopascal", "hPa"],
+    "PSI": ["psi", "lbf/in2"],
+    "Fahrenheit": ["fahrenheit", "°F", "F", "degF"],
+    "Celsius": ["celsius", "°C", "C", "degC"],
+    "Kelvin": ["kelvin", "°K", "K", "degK"],
+    "Rankin": ["rankin", "°R", "R", "degR"],
+    "MPS": ["meter/second", "m/s", "meter/s", "m/second", "mps"],
+    "KMH": ["kilometer/hour", "km/h", "kilometer/h", "km/hour", "kmh"],
+    "FPS": ["foot/second", "feet/second", "ft/s", "foot/s", "feet/s", "ft/second", "fps"],
+    "MPH": ["mile/hour", "mi/h", "mile/h", "mi/hour", "mph"],
+    "KT": ["knot", "kn", "kt"],
+    "Grain": ["grain", "gr", "grn"],
+    "Ounce": ["ounce", "oz"],
+    "Gram": ["gram", "g"],
+    "Pound": ["pound", "lb"],
+    "Kilogram": ["kilogram", "kilogramme", "kg"],
+    "Newton": ["newton", "N"],
+}
+assert sorted(UNIT_ALIASES) == sorted(ALL_UNITS)
+
+
+def all_names():
+    """[(name string as documented, unit)] : 41 enumeration names + every alias"""
+    out = []
+    for u in ALL_UNITS:
+        out.append((u, u))
+        for a in UNIT_ALIASES[u]:
+            out.append((a, u))
+    return out
+
+
+UNKNOWN_NAMES = ["xyz", "", "meterz", "footpounds", "yards", "inchs", "deg.", "kelvins", "m/sec", "set", "defaults",
+                 "__doc__", "__class__", "__init__", "__dict__", "__module__", "mro", "unit", "none", "0", "1.5"]
